@@ -97,3 +97,48 @@ def nodeData (t : TF) (i : Nat) : Nat := t.link i - t.n
 
 end TF
 end Op2.Huff
+
+/-!
+## An independent reference: the classic LZHUF `update`
+
+Written from the textbook routine (`freq / prnt / son`; increment at the loop head, exchange only when the order is
+disturbed, search for the end of the block from `c + 1`, stores in LZHUF's order), on the same three tables so that
+shapes can be compared.  `Op2Proofs.Props.C15.C15_ref` proves it equal to `TF.update` on every well-formed tree.
+-/
+namespace Op2.Huff.Ref
+open Op2.Huff Op2.Huff.TF
+
+/-- LZHUF: `freq[c] = freq[l]; freq[l] = k; i = son[c]; prnt[i] = l; if (i < T) prnt[i+1] = l; j = son[l]; son[l] = i;
+    prnt[j] = c; if (j < T) prnt[j+1] = c; son[c] = j` -/
+def exchange (t : TF) (c l : Nat) : TF :=
+  let k := t.cnt c
+  let cnt := upd (upd t.cnt c (t.cnt l)) l k
+  let i := t.link c
+  let par := upd t.par i l
+  let par := if i < t.n then upd par (i + 1) l else par
+  let j := t.link l
+  let link := upd t.link l i
+  let par := upd par j c
+  let par := if j < t.n then upd par (j + 1) c else par
+  let link := upd link c j
+  { t with cnt := cnt, par := par, link := link }
+
+/-- `while (k > freq[l + 1]) l++` -/
+def find (t : TF) (k l : Nat) : Nat → Nat
+  | 0 => l
+  | fuel + 1 => if k > t.cnt (l + 1) then find t k (l + 1) fuel else l
+
+def climb (t : TF) (c : Nat) : Nat → TF
+  | 0 => t
+  | fuel + 1 =>
+    let t := t.bump c                         -- k = ++freq[c]
+    if c = t.root then t else
+    if t.cnt c > t.cnt (c + 1) then
+      let l := find t (t.cnt c) (c + 1) (t.n - 1)
+      let t := exchange t c l
+      climb t (t.par l) fuel
+    else climb t (t.par c) fuel
+
+def update (t : TF) (code : Nat) : TF := climb t (t.par (code + t.n)) (t.n + 1)
+
+end Op2.Huff.Ref
